@@ -148,7 +148,7 @@ class NodeExpandedDiGraph(nx.DiGraph):
             utils.logger.error(f"{__name__}: If `additional_starts` or `additional_ends` are specified, `try_filling_in_missing_flow_attr` must be set to True.")
             raise ValueError("If `additional_starts` or `additional_ends` are specified, `try_filling_in_missing_flow_attr` must be set to True.")
 
-        if additional_starts != []:
+        if len(additional_starts) > 0:      # (an empty tuple or set is as empty as an empty list)
             self.add_node(self.global_source_id + '.0')
             self.add_node(self.global_source_id + '.1')
             new_edge = (self.global_source_id + '.0', self.global_source_id + '.1')
@@ -163,7 +163,7 @@ class NodeExpandedDiGraph(nx.DiGraph):
                 self.add_edges_from([new_edge])
                 self._edges_to_ignore.append(new_edge)
 
-        if additional_ends != []:
+        if len(additional_ends) > 0:      # (an empty tuple or set is as empty as an empty list)
             self.add_node(self.global_sink_id + '.0')
             self.add_node(self.global_sink_id + '.1')
             new_edge = (self.global_sink_id + '.0', self.global_sink_id + '.1')
